@@ -266,11 +266,16 @@ func (x *Exec) applyContract(fr *Frame, st *State, in ssa.Instruction, con *Cont
 	x.withSpecErr(con.Where, func() {
 		names := x.bindArgs(sig, args)
 		env := &SpecEnv{x: x, fr: fr, st: st, old: st, names: names, pkg: con.Pkg, depth: 1}
-		x.evalLets(env, con)
-		for i, r := range con.Requires {
-			f := env.evalBool(r.Expr).formula()
+		i := 0
+		for _, p := range con.Pre {
+			if p.Let != "" {
+				env.names[p.Let] = env.eval(p.C.Expr)
+				continue
+			}
+			f := env.evalBool(p.C.Expr).formula()
 			x.proveF(fr, st, fmt.Sprintf("%s.pre[%d]", lbl, i), "precondition", f, in)
 			x.assumeF(st, f)
+			i++
 		}
 		for i, p := range con.PanicsIf {
 			f := &F{Op: "not", Kids: []*F{env.evalBool(p.Expr).formula()}}
@@ -284,7 +289,7 @@ func (x *Exec) applyContract(fr *Frame, st *State, in ssa.Instruction, con *Cont
 			if !invoke {
 				fn = x.eng.findFunc(key)
 			}
-			res = x.pureApp(fr, st, key, con, sig, args, fn)
+			res = x.pureApp(fr, st, key, con, sig, args, fn, true)
 			return
 		}
 		snap := st.snapshot()
@@ -317,17 +322,17 @@ func (x *Exec) applyContract(fr *Frame, st *State, in ssa.Instruction, con *Cont
 // ---------- verifying one function against its contract ----------
 
 type FuncResult struct {
-	Key     string
-	Where   string
-	Instrs  int
-	Paths   int
-	Obs     []*Oblig
-	OOS     string // out-of-subset reason ("" if fine)
-	Notes   []string
-	Side    struct{ Asked, Proved int }
-	NoWrap  map[string]bool
-	decls   *Decls
-	x       *Exec
+	Key    string
+	Where  string
+	Instrs int
+	Paths  int
+	Obs    []*Oblig
+	OOS    string // out-of-subset reason ("" if fine)
+	Notes  []string
+	Side   struct{ Asked, Proved int }
+	NoWrap map[string]bool
+	decls  *Decls
+	x      *Exec
 }
 
 func (eng *Engine) verifyFunc(key string, con *Contract, bound int) (res *FuncResult) {
@@ -389,6 +394,7 @@ func (x *Exec) run() {
 		v := x.namedVal(st, p.Type(), "p."+p.Name())
 		st.env[p] = v
 		fr.names[p.Name()] = v
+		x.recordModelTerm(p.Name(), v)
 	}
 	if len(fn.FreeVars) > 0 {
 		panic(oos("function with free variables cannot carry a contract"))
@@ -402,12 +408,18 @@ func (x *Exec) run() {
 	}
 	x.withSpecErr(con.Where, func() {
 		env := x.specEnvAt(fr, st, st, nil)
-		x.evalLets(env, con)
+		x.noWD = true // well-definedness of the function's own precondition is the callers' obligation
+		for _, p := range con.Pre {
+			if p.Let != "" {
+				env.names[p.Let] = env.eval(p.C.Expr)
+				continue
+			}
+			x.assumeF(st, env.evalBool(p.C.Expr).formula())
+		}
+		x.noWD = false
 		for k, v := range env.names {
 			fr.names[k] = v
-		}
-		for _, r := range con.Requires {
-			x.assumeF(st, env.evalBool(r.Expr).formula())
+			x.recordModelTerm(k, v)
 		}
 		// callers establish the negation of every panics_if condition only if they are nopanic; the function itself may assume nothing
 	})
@@ -668,11 +680,20 @@ func (eng *Engine) verifyLemma(con *Contract, bound int) *FuncResult {
 		} else {
 			fr.names[p.Name] = x.namedVal(st, t, "l."+p.Name)
 		}
+		x.recordModelTerm(p.Name, fr.names[p.Name])
+		if v := fr.names[p.Name]; v.K == KInt {
+			st.addIdx(v.S)
+		}
 	}
 	env := x.specEnvAt(fr, st, st, nil)
-	x.evalLets(env, con)
-	for _, r := range con.Requires {
-		x.assumeF(st, env.evalBool(r.Expr).formula())
+	for _, p := range con.Pre {
+		if p.Let != "" {
+			env.names[p.Let] = env.eval(p.C.Expr)
+			fr.names[p.Let] = env.names[p.Let]
+			x.recordModelTerm(p.Let, env.names[p.Let])
+			continue
+		}
+		x.assumeF(st, env.evalBool(p.C.Expr).formula())
 	}
 	fr.pre = st
 	cov := x.emit(fr, st, "cover:requires", "cover", atom("false"), nil)
@@ -690,29 +711,45 @@ func (eng *Engine) verifyLemma(con *Contract, bound int) *FuncResult {
 
 func (x *Exec) buildQuery(o *Oblig) *Query {
 	q := &Query{}
-	terms := append([]string{}, o.Idx...)
-	// also instantiate at +-1 of the first few goal-side terms
-	var ext []string
-	seen := map[string]bool{}
-	add := func(t string) {
-		if !seen[t] && t != "" {
+	o.hasQ = false
+	// instantiation terms: the path's index terms (with their sequences), +-1 of the first few, and 0
+	var ext []IdxT
+	seen := map[IdxT]bool{}
+	hasSeq := map[string]bool{}
+	for _, t := range o.Idx {
+		if t.Seq != "" {
+			hasSeq[t.T] = true
+		}
+	}
+	add := func(t IdxT) {
+		if t.Seq == "" && hasSeq[t.T] {
+			return
+		}
+		if !seen[t] && t.T != "" {
 			seen[t] = true
 			ext = append(ext, t)
 		}
 	}
-	for i, t := range terms {
+	for i, t := range o.Idx {
 		add(t)
-		if i < 4 {
-			add(sSub(t, "1"))
-			add(sAdd(t, "1"))
+		if i < 6 && !(t.Seq == "" && hasSeq[t.T]) {
+			add(IdxT{sSub(t.T, "1"), t.Seq})
+			add(IdxT{sAdd(t.T, "1"), t.Seq})
 		}
 	}
-	add("0")
-	if len(ext) > 16 {
-		ext = ext[:16]
+	add(IdxT{"0", ""})
+	if len(ext) > 40 {
+		ext = ext[:40]
+	}
+	if os.Getenv("GOVC_DEBUG_IDX") != "" && strings.Contains(o.Name, os.Getenv("GOVC_DEBUG_IDX")) {
+		for _, t := range ext {
+			fmt.Fprintf(os.Stderr, "IDX %s  @ %s\n", truncate(t.T, 80), truncate(t.Seq, 60))
+		}
+		fmt.Fprintln(os.Stderr, "---")
 	}
 	for _, it := range o.PC {
 		if it.QF != nil {
+			o.hasQ = true
 			var out []string
 			x.instantiate(it.QF, ext, 0, &out)
 			q.Asserts = append(q.Asserts, out...)
@@ -744,8 +781,9 @@ func (res *FuncResult) discharge(timeoutMs int, workers int) {
 	sem := make(chan struct{}, workers)
 	// dedupe identical queries
 	type job struct {
-		text string
-		obs  []*Oblig
+		text  string
+		text2 string
+		obs   []*Oblig
 	}
 	byText := map[string]*job{}
 	var jobs []*job
@@ -754,12 +792,19 @@ func (res *FuncResult) discharge(timeoutMs int, workers int) {
 			o.Res = SolveResult{Status: "sat", Solver: "none", Output: o.Where}
 			continue
 		}
+		res.x.withQ = false
 		text := res.decls.render(res.x.buildQuery(o))
+		text2 := ""
+		if o.hasQ {
+			res.x.withQ = true
+			text2 = res.decls.render(res.x.buildQuery(o))
+			res.x.withQ = false
+		}
 		if j, ok := byText[text]; ok {
 			j.obs = append(j.obs, o)
 			continue
 		}
-		j := &job{text: text, obs: []*Oblig{o}}
+		j := &job{text: text, text2: text2, obs: []*Oblig{o}}
 		byText[text] = j
 		jobs = append(jobs, j)
 	}
@@ -769,7 +814,23 @@ func (res *FuncResult) discharge(timeoutMs int, workers int) {
 		go func(j *job) {
 			defer wg.Done()
 			defer func() { <-sem }()
+			// first attempt: quantified assumptions replaced by their instances (quantifier-free); a proof here is a proof
 			r := solveText(j.text, timeoutMs)
+			cover := j.obs[0].Cover || j.obs[0].Canary
+			if r.Status != "unsat" && j.text2 != "" && !cover {
+				// second attempt with the quantified assumptions themselves
+				r2 := solveText(j.text2, timeoutMs)
+				r2.Secs += r.Secs
+				if r2.Status == "unsat" || r2.Status == "sat" {
+					r = r2
+				} else if r.Status == "sat" {
+					// only the weakened query has a model: a candidate, not a refutation
+					r = SolveResult{Status: "unknown", Solver: r.Solver, Secs: r2.Secs, Output: "candidate model of the instantiated (weakened) query only\n" + r.Output}
+					r.Candidate = true
+				} else {
+					r.Secs = r2.Secs
+				}
+			}
 			for _, o := range j.obs {
 				o.Res = r
 			}
